@@ -17,8 +17,12 @@ def setup():
         log("coq make rc=%d (%.0fs)" % (rc, dt))
         if rc != 0:
             print(out[-4000:])
-        ok, msg = core.build_model_exe()
-        log("model.exe:", ok, msg[:300])
+        ok = True
+        for pid in core.all_props():
+            o, msg = core.build_model_exe(pid)
+            if not o and os.path.exists(os.path.join(core.COQ, "theories", "Run", "Extract_%s.v" % pid)):
+                ok = False
+                log("model.exe %s:" % pid, o, msg[:300])
         okc, exe, cerr, dtc = core.cargo_build()
         log("cargo build:", okc, "%.0fs" % dtc, cerr[-500:])
     log("setup done in %.0fs" % (time.time() - t0))
@@ -54,14 +58,14 @@ def check(pid, tier="quick", seed=None, only_cases=None):
     targets = [t for t in getattr(P, "COQ_TARGETS", [])]
     with core.Lock("build"):
         tinfo = core.translate()
-        reg = core.gen_extract_v()
+        reg = core.gen_extract_v(pid, getattr(P, "MODES", None))
         core.coq_project()
-        vo = ["theories/%s.vo" % t for t in targets] + ["theories/Run/Extract.vo"]
+        vo = ["theories/%s.vo" % t for t in targets] + (["theories/Run/Extract_%s.vo" % pid] if reg else [])
         rc, mout, mdt = core.make(vo)
         merrs = core.failed_files(mout) if rc != 0 else []
         if rc != 0 and not merrs:
             merrs = [{"file": "?", "line": 0, "message": mout[-800:]}]
-        mok, mmsg = core.build_model_exe()
+        mok, mmsg = core.build_model_exe(pid) if reg else (True, "no model modes")
         okc, pdfh, cerr, cdt = core.cargo_build()
     log("coq make rc=%d in %.0fs; model.exe %s; cargo %s in %.0fs" % (rc, mdt, mok, okc, cdt))
 
@@ -71,7 +75,7 @@ def check(pid, tier="quick", seed=None, only_cases=None):
         broken.append("generated-table anchor: " + a)
     for e in merrs:
         st = core.enclosing_statement(e["file"], e["line"]) or "?"
-        in_cone = any(e["file"].endswith(c) for c in cone) or e["file"] == "?" or e["file"].endswith("Run/Extract.v")
+        in_cone = any(e["file"].endswith(c) for c in cone) or e["file"] == "?" or e["file"].endswith("Run/Extract_%s.v" % pid)
         if in_cone:
             broken.append("proof obligation %s (%s:%d): %s" % (st, e["file"], e["line"], e["message"][:200]))
     lint = core.lint(cone)
@@ -141,7 +145,7 @@ def check(pid, tier="quick", seed=None, only_cases=None):
     midx = [i for i, c in enumerate(cases) if c.model and c.mode in reg]
     if mok and midx:
         t1 = time.time()
-        mres = core.run_parallel(os.path.join(core.COQ, "extracted", "model.exe"), [cases[i].line(True) for i in midx],
+        mres = core.run_parallel(os.path.join(core.COQ, "extracted", pid, "model.exe"), [cases[i].line(True) for i in midx],
                                  per_case_timeout=getattr(P, "MODEL_TIMEOUT", 60.0), model=True)
         for i, r in zip(midx, mres):
             model[i] = r
